@@ -70,6 +70,7 @@ type FuncContract struct {
 	ResNames   []string
 	File       string
 	Line       int
+	Synth      bool // synthesised for a sweep (flags only)
 }
 
 type GhostFunc struct {
